@@ -266,15 +266,17 @@ func c06r2(p *Prog, r *Reporter) {
 				}
 			}
 		}
-		for _, b := range fn.Blocks {
-			for _, i2 := range b.Instrs {
-				if mu, ok := i2.(*ssa.MapUpdate); ok {
-					if _, fld, _, ok := loadedField(mu.Map); ok && fld == "archetypeMap" {
-						ins = mustPass(p, fn, mu)
-					}
-				}
+		// every path to a return passes an insertion into the target map (one statement, or one per branch)
+		insFlow := &MustFlow{Fn: fn, InstrGen: func(i2 ssa.Instruction) bool {
+			mu, ok := i2.(*ssa.MapUpdate)
+			if !ok {
+				return false
 			}
-		}
+			_, fld, _, ok := loadedField(mu.Map)
+			return ok && fld == "archetypeMap"
+		}}
+		insFlow.Run()
+		ins = insFlow.AtAllReturns()
 		r.Check(act, name, "reuse activates the table with the new target", p.FnPos(fn), "the popped table gets its index and RelationTarget set")
 		r.Check(ins, name, "reuse inserts the table into the target map", p.FnPos(fn), "archetypeMap[target] = table on every path")
 	}
